@@ -229,7 +229,7 @@ def run_check(check_id, tier, seed, replay=None, limit=None):
                     i, d = work.get_nowait()
                 except queue.Empty:
                     return
-                if stop_after and (len(agg.violations) >= stop_after or len(agg.inconclusive) >= max(24, 8 * stop_after)):
+                if stop_after and (len(agg.violations) >= stop_after or len(agg.inconclusive) >= max(300, 8 * stop_after)):
                     continue
                 if wd["fired"] >= 24:
                     # the tree under test hangs or kills workers case after case: stop burning watchdog periods, the run is inconclusive
